@@ -63,6 +63,9 @@ struct BloomFilter {
 
 impl BloomFilter {
     fn new(expected_items: usize, false_positive_rate: f64) -> Self {
+        // An empty (or very short) training text still needs a filter with at least one bit:
+        // `insert`/`contains` reduce hashes modulo the size.
+        let expected_items = expected_items.max(1);
         let size = (-((expected_items as f64) * false_positive_rate.ln()) / (2.0_f64.ln().powi(2)))
             .ceil() as usize;
         let hash_functions = ((size as f64 / expected_items as f64) * 2.0_f64.ln()).ceil() as usize;
